@@ -660,31 +660,23 @@ Proof.
     inversion E; subst. split; [reflexivity | congruence].
 Qed.
 
-Theorem parse_output_struct_error s : parse_output s = SStructError <-> tokenize s = TokErr StructError.
-Proof.
-  unfold parse_output, script_parse. destruct (tokenize s) as [toks|[|]] eqn:T; split; try discriminate; try reflexivity.
-  - intro H. exfalso.
-    set (l := (match match toks with [] => Some NO_SCRIPT | _ :: _ => None end with Some t => [t] | None => [] end
-               ++ output_templates)) in H.
-    clearbody l. induction l as [|[n o] l IH]; cbn [first_match] in H; [discriminate|].
-    destruct (template_parse o toks); [discriminate | auto | discriminate].
-Qed.
-
 Theorem parse_output_nomatch s : parse_output s = SNoMatch <->
+  tokenize s = TokErr StructError \/
   exists toks, tokenize s = TokOk toks /\ forall name vs, ~ out_shape name toks vs.
 Proof.
   split.
-  - intro H. destruct (tokenize s) as [toks|e] eqn:T.
-    + exists toks. split; [reflexivity|]. intros name vs Hs.
+  - intro H. destruct (tokenize s) as [toks|[|]] eqn:T.
+    + right. exists toks. split; [reflexivity|]. intros name vs Hs.
       assert (K : parse_output s = SMatch name vs) by (apply parse_output_shapes; exists toks; auto).
       congruence.
-    + unfold parse_output, script_parse in H. rewrite T in H. destruct e; discriminate.
-  - intros (toks & T & Hn).
-    destruct (parse_output s) as [name vs| | |] eqn:E; [|reflexivity| |].
-    + apply parse_output_shapes in E as (toks' & T' & Hs). rewrite T in T'. inversion T'; subst.
-      exfalso. eapply Hn. exact Hs.
-    + apply parse_output_struct_error in E. congruence.
-    + exfalso. eapply script_parse_no_fuel. exact E.
+    + left. reflexivity.
+    + exfalso. eapply tokenize_no_fuel. exact T.
+  - intros [T|(toks & T & Hn)].
+    + unfold parse_output, script_parse. rewrite T. reflexivity.
+    + destruct (parse_output s) as [name vs| |] eqn:E; [|reflexivity|].
+      * apply parse_output_shapes in E as (toks' & T' & Hs). rewrite T in T'. inversion T'; subst.
+        exfalso. eapply Hn. exact Hs.
+      * exfalso. eapply script_parse_no_fuel. exact E.
 Qed.
 
 (* ---- classification ---- *)
@@ -840,37 +832,37 @@ Qed.
 Theorem classify_iff s c :
   classify s = c <->
   match c with
-  | CError => tokenize s = TokErr StructError
+  | CError => False
+  | CNoMatch => tokenize s = TokErr StructError \/ exists toks, tokenize s = TokOk toks /\ class_shape c toks
   | _ => exists toks, tokenize s = TokOk toks /\ class_shape c toks
   end.
 Proof.
   unfold classify. split.
-  - intro H. destruct (parse_output s) as [name vs| | |] eqn:E.
+  - intro H. destruct (parse_output s) as [name vs| |] eqn:E.
     + apply parse_output_shapes in E as (toks & T & Hs).
       pose proof (out_shape_class _ _ _ Hs) as K. rewrite H in K.
-      destruct c; try (exists toks; split; [exact T | exact K]). contradiction.
-    + simpl in H. subst c. apply parse_output_nomatch in E as (toks & T & Hn).
-      exists toks. split; [exact T|]. split.
+      destruct c; try (exists toks; split; [exact T | exact K]); try contradiction.
+      right. exists toks. split; [exact T | exact K].
+    + simpl in H. subst c. apply parse_output_nomatch in E as [T|(toks & T & Hn)]; [left; exact T|].
+      right. exists toks. split; [exact T|]. split.
       * intros ->. apply (Hn T_no_script []). split; reflexivity.
       * intro Hsh. apply shaped_iff in Hsh as (c & _ & Hc & Hcs).
         destruct (class_shape_out _ _ Hc Hcs) as (n & v & O & _). exact (Hn _ _ O).
-    + simpl in H. subst c. apply parse_output_struct_error. exact E.
     + exfalso. eapply script_parse_no_fuel. exact E.
   - intro H.
     assert (G : forall toks, tokenize s = TokOk toks -> shape_class c -> class_shape c toks ->
                 class_of (parse_output s) = c).
     { intros toks T Hc Hs. destruct (class_shape_out _ _ Hc Hs) as (n & v & O & <-).
       f_equal. apply parse_output_shapes. exists toks. auto. }
-    destruct c; try (destruct H as (toks & T & Hs); apply (G toks T I Hs)).
-    + destruct H as (toks & T & Hne & Hns).
-      assert (E : parse_output s = SNoMatch).
-      { apply parse_output_nomatch. exists toks. split; [exact T|]. intros name vs O.
-        pose proof (out_shape_class _ _ _ O) as K.
-        destruct (class_of (SMatch name vs)) eqn:C; cbn [class_shape] in K;
-          try (apply Hns; unfold shaped; tauto); try contradiction.
-        exact (proj1 (class_of_match_proper name vs) C). }
-      rewrite E. reflexivity.
-    + apply parse_output_struct_error in H. rewrite H. reflexivity.
+    destruct c; try (destruct H as (toks & T & Hs); apply (G toks T I Hs)); try contradiction.
+    assert (E : parse_output s = SNoMatch).
+    { apply parse_output_nomatch. destruct H as [T|(toks & T & Hne & Hns)]; [left; exact T|].
+      right. exists toks. split; [exact T|]. intros name vs O.
+      pose proof (out_shape_class _ _ _ O) as K.
+      destruct (class_of (SMatch name vs)) eqn:C; cbn [class_shape] in K;
+        try (apply Hns; unfold shaped; tauto); try contradiction.
+      exact (proj1 (class_of_match_proper name vs) C). }
+    rewrite E. reflexivity.
 Qed.
 
 (* consequence spelled out: a payment (spendable) class is never given to a script that starts
@@ -943,4 +935,344 @@ Proof.
     try (destruct O as (? & ? & ? & ? & ? & ? & _ & _ & _ & E & _); discriminate E);
     try (destruct O as (? & ? & ? & ? & ? & ? & ? & ? & _ & _ & _ & _ & E & _); discriminate E).
   destruct O as [E _]. discriminate E.
+Qed.
+
+(* ======================================================================================== *)
+(* F. InputScript on arbitrary byte strings, the PUSH_MANY template included                 *)
+(* ======================================================================================== *)
+
+Definition not_data_head (l : list token) : Prop := match l with TData _ :: _ => False | _ => True end.
+
+Lemma span_data_spec : forall toks datas rest, span_data toks = (datas, rest) ->
+  toks = map TData datas ++ rest /\ not_data_head rest.
+Proof.
+  induction toks as [|t r IH]; intros datas rest H.
+  - inversion H. split; [reflexivity | exact I].
+  - destruct t as [d|k|v]; cbn [span_data] in H.
+    + destruct (span_data r) as [a b] eqn:E. inversion H; subst.
+      destruct (IH a rest eq_refl) as [-> Hn]. split; [reflexivity | exact Hn].
+    + inversion H. split; [reflexivity | exact I].
+    + inversion H. split; [reflexivity | exact I].
+Qed.
+
+Lemma span_data_map : forall l rest, not_data_head rest -> span_data (map TData l ++ rest) = (l, rest).
+Proof.
+  induction l as [|d l IH]; intros rest H.
+  - cbn [map app]. destruct rest as [|[x|k|v] r]; try reflexivity. contradiction.
+  - cbn [map app span_data]. rewrite IH by exact H. reflexivity.
+Qed.
+
+Lemma split_last {A} (l : list A) k : length l = S k -> exists x, skipn k l = [x] /\ l = firstn k l ++ [x].
+Proof.
+  revert l. induction k as [|k IH]; intros l H.
+  - destruct l as [|x [|y r]]; try discriminate. exists x. split; reflexivity.
+  - destruct l as [|y r]; [discriminate|]. simpl in H. destruct (IH r) as (x & E1 & E2); [lia|].
+    exists x. cbn [skipn firstn app]. split; [exact E1 | f_equal; exact E2].
+Qed.
+
+Definition MS_OPS := snd REDEEM_SCRIPT_HASH_MULTI_SIG.
+
+Lemma consume_many_ms n f sub toks :
+  consume_many n [PushMany n; PushSub f sub] toks =
+  let (datas, rest) := span_data toks in
+  if (length datas <? 2)%nat then None
+  else match zip_singles [PushSub f sub] (skipn (length datas - 1) datas) with
+       | Some vs => Some ((n, VList (firstn (length datas - 1) datas)) :: vs, [], rest)
+       | None => None
+       end.
+Proof. unfold consume_many. destruct (span_data toks). reflexivity. Qed.
+
+Lemma multisig_parse_iff toks vs :
+  parse MS_OPS toks = PMatch vs <->
+  exists sigs src, sigs <> [] /\ toks = TOp 0 :: map TData sigs ++ [TData src] /\
+                   vs = [(F_signatures, VList sigs); (F_script, VSub SubMultiSig src)].
+Proof.
+  unfold parse, MS_OPS. cbn [snd REDEEM_SCRIPT_HASH_MULTI_SIG length]. split.
+  - destruct toks as [|t toks']; [discriminate|].
+    destruct t as [d|k|[|p]]; cbn [parse_fuel push_single OP_0 N.eqb]; try discriminate.
+    destruct toks' as [|t' r]; [discriminate|].
+    destruct t' as [d|k|v]; cbn [parse_fuel]; try discriminate.
+    + rewrite consume_many_ms. destruct (span_data (TData d :: r)) as [datas rest] eqn:E.
+      destruct (Nat.ltb_spec (length datas) 2) as [Hlt|Hge]; [discriminate|].
+      apply span_data_spec in E as [E Hn].
+      assert (L : length datas = S (length datas - 1)) by lia.
+      destruct (split_last datas _ L) as (x & S1 & S2).
+      rewrite S1. cbn [zip_singles push_single].
+      destruct rest as [|y rest']; cbn [parse_fuel pcons app]; [|discriminate].
+      intro H. inversion H; subst vs. exists (firstn (length datas - 1) datas), x.
+      split.
+      * intro K. apply (f_equal (@length bytes)) in K. rewrite firstn_length in K. simpl in K. lia.
+      * split; [|reflexivity]. rewrite E, app_nil_r. f_equal. rewrite S2 at 1. rewrite map_app. reflexivity.
+    + destruct v; discriminate.
+  - intros (sigs & src & Hne & -> & ->).
+    destruct sigs as [|s1 sr]; [congruence|].
+    cbn [parse_fuel push_single OP_0 N.eqb map app].
+    rewrite consume_many_ms.
+    change (TData s1 :: map TData sr ++ [TData src]) with (map TData (s1 :: sr) ++ map TData [src]).
+    rewrite <- map_app. rewrite <- (app_nil_r (map TData _)).
+    rewrite span_data_map by exact I.
+    rewrite app_length. cbn [length].
+    replace (S (length sr) + 1 <? 2)%nat with false by (symmetry; apply Nat.ltb_ge; lia).
+    replace (S (length sr) + 1 - 1)%nat with (length (s1 :: sr)) by (simpl; lia).
+    rewrite skipn_app_exact, firstn_app_exact. reflexivity.
+Qed.
+
+Definition in_shape (t : tname) (toks : list token) (vs : values) : Prop :=
+  match t with
+  | T_no_script => toks = [] /\ vs = []
+  | T_pubkey => exists a sig, pushed a sig /\ toks = [a] /\ vs = [(F_signature, VBytes sig)]
+  | T_pubkey_hash => exists a sig b pk, pushed a sig /\ pushed b pk /\
+      toks = [a; b] /\ vs = [(F_signature, VBytes sig); (F_pubkey, VBytes pk)]
+  | T_script_hash_timelock => exists a sig b pk src, pushed a sig /\ pushed b pk /\
+      toks = [a; b; TData src] /\
+      vs = [(F_signature, VBytes sig); (F_pubkey, VBytes pk); (F_script, VSub SubTimeLock src)]
+  | T_script_hash_multi_sig => exists sigs src, (2 <= length sigs)%nat /\
+      toks = TOp 0 :: map TData sigs ++ [TData src] /\
+      vs = [(F_signatures, VList sigs); (F_script, VSub SubMultiSig src)]
+  | _ => False
+  end.
+
+Lemma match_tok_sub_inv n sub t v : match_tok (PushSub n sub) t = Some v ->
+  exists d, t = TData d /\ v = [(n, VSub sub d)].
+Proof. destruct t as [d|k|x]; simpl; try discriminate. intro H. inversion H. exists d. auto. Qed.
+
+Lemma first_match_app a b toks :
+  first_match (a ++ b) toks = match first_match a toks with SNoMatch => first_match b toks | r => r end.
+Proof.
+  induction a as [|[n o] a IH]; cbn [app first_match]; [reflexivity|].
+  destruct (template_parse o toks); [reflexivity | exact IH | reflexivity].
+Qed.
+
+Lemma parse_simple_length : forall ops toks v, parse_simple ops toks = Some v -> length ops = length toks.
+Proof.
+  induction ops as [|op r IH]; intros toks v H.
+  - apply parse_simple_nil_inv in H as [-> _]. reflexivity.
+  - apply parse_simple_cons_inv in H as (t & toks' & v1 & v2 & -> & _ & P & _). simpl. f_equal. eapply IH. exact P.
+Qed.
+
+Lemma first_match_nomatch : forall l toks, simple_table l = true ->
+  (forall n ops, In (n, ops) l -> length ops <> length toks) -> first_match l toks = SNoMatch.
+Proof.
+  induction l as [|[n o] l IH]; intros toks Hs H; [reflexivity|].
+  cbn [first_match].
+  destruct (simple_table_In ((n, o) :: l) n o Hs (or_introl eq_refl)) as [S1 S2].
+  rewrite template_parse_simple by assumption.
+  destruct (parse_simple o toks) as [v|] eqn:E.
+  - apply parse_simple_length in E. exfalso. apply (H n o); [left; reflexivity | exact E].
+  - simpl. apply IH.
+    + cbn [simple_table forallb] in Hs. apply andb_true_iff in Hs as [_ Hs]. exact Hs.
+    + intros n' ops' HIn. apply (H n' ops'). right. exact HIn.
+Qed.
+
+Lemma in_shape_of_parse : forall name ops toks vs, In (name, ops) input_simple_templates ->
+  parse_simple ops toks = Some vs -> in_shape name toks vs.
+Proof.
+  intros name ops toks vs HIn H. simpl in HIn.
+  destruct HIn as [E|[E|[E|[]]]]; inversion E; subst; clear E.
+  - peel H. cbn [in_shape app]. repeat eexists; eassumption.
+  - peel H. cbn [in_shape app]. repeat eexists; eassumption.
+  - apply parse_simple_cons_inv in H as (t1 & r1 & v1 & w1 & -> & M1 & H & ->).
+    apply parse_simple_cons_inv in H as (t2 & r2 & v2 & w2 & -> & M2 & H & ->).
+    apply parse_simple_cons_inv in H as (t3 & r3 & v3 & w3 & -> & M3 & H & ->).
+    apply parse_simple_nil_inv in H as [-> ->].
+    apply match_tok_single_inv in M1 as (d1 & P1 & ->).
+    apply match_tok_single_inv in M2 as (d2 & P2 & ->).
+    apply match_tok_sub_inv in M3 as (d3 & -> & ->).
+    cbn [in_shape app]. exists t1, d1, t2, d2, d3. auto.
+Qed.
+
+Lemma parse_of_in_shape : forall name toks vs, in_shape name toks vs -> toks <> [] ->
+  name <> T_script_hash_multi_sig ->
+  exists ops, In (name, ops) input_simple_templates /\ parse_simple ops toks = Some vs.
+Proof.
+  intros name toks vs H Hne Hnm. destruct name; cbn [in_shape] in H; try contradiction; try congruence.
+  - destruct H as [-> _]. congruence.
+  - destruct H as (a & sig & P & -> & ->). eexists. split; [left; reflexivity|]. destruct P; reflexivity.
+  - destruct H as (a & sig & b & pk & P1 & P2 & -> & ->). eexists. split; [right; left; reflexivity|].
+    destruct P1, P2; reflexivity.
+  - destruct H as (a & sig & b & pk & src & P1 & P2 & -> & ->). eexists. split; [do 2 right; left; reflexivity|].
+    destruct P1, P2; reflexivity.
+Qed.
+
+(* complete description of InputScript parsing on arbitrary byte strings, multisig included; the
+   global order shows in the multi_sig clause: with a single signature the script is read as
+   script_hash+timelock with an empty signature *)
+Theorem parse_input_shapes : forall s name vs,
+  parse_input s = SMatch name vs <-> exists toks, tokenize s = TokOk toks /\ in_shape name toks vs.
+Proof.
+  intros s name vs. unfold parse_input, script_parse. split.
+  - destruct (tokenize s) as [toks|[|]] eqn:T; try discriminate.
+    intro H. exists toks. split; [reflexivity|].
+    destruct toks as [|t toks'].
+    + cbn in H. inversion H; subst. split; reflexivity.
+    + cbn [app] in H. rewrite input_table_split, first_match_app in H.
+      destruct (first_match input_simple_templates (t :: toks')) as [n v| |] eqn:E.
+      * inversion H; subst. apply first_match_In in E as (ops & HIn & Hp).
+        destruct (simple_table_In _ _ _ input_table_simple HIn) as [Hs Hne].
+        rewrite template_parse_simple in Hp by assumption.
+        destruct (parse_simple ops (t :: toks')) as [v'|] eqn:E'; [|discriminate].
+        inversion Hp; subst. eapply in_shape_of_parse; eassumption.
+      * cbn [first_match REDEEM_SCRIPT_HASH_MULTI_SIG template_parse] in H.
+        fold MS_OPS in H. change (OpLit OP_0 :: _) with MS_OPS in H.
+        destruct (parse MS_OPS (t :: toks')) as [v| |] eqn:P; try discriminate.
+        inversion H; subst. apply multisig_parse_iff in P as (sigs & src & Hne & Et & ->).
+        cbn [in_shape]. exists sigs, src. split; [|split; [exact Et | reflexivity]].
+        destruct sigs as [|s1 [|s2 sr]]; [congruence | | simpl; lia].
+        (* one signature: the time-lock template would have matched first *)
+        exfalso. rewrite Et in E. cbn [map app] in E.
+        assert (K : first_match (input_simple_templates ++ []) [TOp 0; TData s1; TData src] =
+                    SMatch T_script_hash_timelock
+                      [(F_signature, VBytes []); (F_pubkey, VBytes s1); (F_script, VSub SubTimeLock src)]).
+        { eapply first_match_prefix; [apply input_table_simple | apply input_table_incompat
+                                      | do 2 right; left; reflexivity | reflexivity]. }
+        rewrite app_nil_r in K. congruence.
+      * discriminate.
+  - intros (toks & T & Hsh). rewrite T. destruct toks as [|t toks'].
+    + destruct name; cbn [in_shape] in Hsh; try contradiction.
+      * destruct Hsh as [_ ->]. reflexivity.
+      * destruct Hsh as (? & ? & _ & E & _). discriminate.
+      * destruct Hsh as (? & ? & ? & ? & _ & _ & E & _). discriminate.
+      * destruct Hsh as (? & ? & _ & E & _). discriminate.
+      * destruct Hsh as (? & ? & ? & ? & ? & _ & _ & E & _). discriminate.
+    + cbn [app]. rewrite input_table_split.
+      assert (D : name = T_script_hash_multi_sig \/ name <> T_script_hash_multi_sig)
+        by (destruct name; (left; reflexivity) || (right; discriminate)).
+      destruct D as [->|Hnm].
+      * cbn [in_shape] in Hsh. destruct Hsh as (sigs & src & L & Et & ->).
+        rewrite first_match_app, first_match_nomatch.
+        -- cbn [first_match REDEEM_SCRIPT_HASH_MULTI_SIG template_parse].
+           change (OpLit OP_0 :: _) with MS_OPS.
+           assert (P : parse MS_OPS (t :: toks') = PMatch [(F_signatures, VList sigs); (F_script, VSub SubMultiSig src)]).
+           { apply multisig_parse_iff. exists sigs, src. split; [destruct sigs; [simpl in L; lia | discriminate]|].
+             split; [exact Et | reflexivity]. }
+           rewrite P. reflexivity.
+        -- apply input_table_simple.
+        -- intros n ops HIn. rewrite Et. cbn [length]. rewrite app_length, map_length. cbn [length].
+           simpl in HIn. destruct HIn as [E|[E|[E|[]]]]; inversion E; subst; simpl; lia.
+      * destruct (parse_of_in_shape _ _ _ Hsh) as (ops & HIn & P); [discriminate | exact Hnm|].
+        eapply first_match_prefix; [apply input_table_simple | apply input_table_incompat | exact HIn | exact P].
+Qed.
+
+(* the time-lock redeem script as values['script'] parses it (template hint, no other templates) *)
+Lemma match_tok_int_inv n t v : match_tok (PushInteger n) t = Some v ->
+  exists d, t = TData d /\ v = [(n, VInt (le_decode d))].
+Proof. destruct t as [d|k|x]; simpl; try discriminate. intro H. inversion H. exists d. auto. Qed.
+
+Theorem parse_timelock_shapes : forall s name vs,
+  parse_sub SubTimeLock s = SMatch name vs <->
+  exists h a k, pushed a k /\ name = T_timelock /\
+    tokenize s = TokOk ([TData h; TOp OP_CHECKLOCKTIMEVERIFY; TOp OP_DROP] ++ pkh_tail a) /\
+    vs = [(F_height, VInt (le_decode h)); (F_pubkey_hash, VBytes k)].
+Proof.
+  intros s name vs. unfold parse_sub, script_parse. cbn [sub_template]. split.
+  - destruct (tokenize s) as [toks|[|]] eqn:T; try discriminate.
+    replace (match match toks with [] => Some TIME_LOCK_SCRIPT | _ :: _ => Some TIME_LOCK_SCRIPT end with
+             | Some t => [t] | None => [] end ++ []) with [TIME_LOCK_SCRIPT] by (destruct toks; reflexivity).
+    cbn [first_match TIME_LOCK_SCRIPT].
+    rewrite template_parse_simple by (vm_compute; reflexivity || discriminate).
+    destruct (parse_simple _ toks) as [v|] eqn:P; [|discriminate].
+    intro H. inversion H; subst. unfold PAY_PUBKEY_HASH_OPS in P. cbn [app] in P.
+    apply parse_simple_cons_inv in P as (t1 & r1 & v1 & w1 & -> & M1 & P & ->).
+    apply match_tok_int_inv in M1 as (h & -> & ->).
+    peel P. exists h, t, d. split; [exact P0|]. split; [reflexivity|]. split; reflexivity.
+  - intros (h & a & k & P & -> & T & ->). rewrite T. cbn [app].
+    destruct P; reflexivity.
+Qed.
+
+(* ======================================================================================== *)
+(* G. the other direction: generating again from the parsed values reproduces the script      *)
+(* ======================================================================================== *)
+
+Lemma field_eqb_eq a b : field_eqb a b = true <-> a = b.
+Proof.
+  split.
+  - destruct a, b; intro H; try reflexivity; vm_compute in H; discriminate H.
+  - intros ->. unfold field_eqb. apply N.eqb_refl.
+Qed.
+
+Definition push_field (op : topcode) : option field :=
+  match op with
+  | PushSingle n | PushInteger n | PushSub n _ | PushMany n | SmallInt n => Some n
+  | OpLit _ => None
+  end.
+
+(* the payload generate reads from a value *)
+Definition same_payload (a b : value) : Prop :=
+  match a, b with
+  | VBytes x, VBytes y => x = y
+  | VInt x, VInt y => x = y
+  | VSub _ x, VSub _ y => x = y
+  | _, _ => False
+  end.
+
+Lemma lookup_expected : forall ops vs n, Forall (slot_ok vs) ops ->
+  (exists op, In op ops /\ push_field op = Some n) ->
+  exists v v', lookup n vs = Some v /\ lookup n (expected ops vs) = Some v' /\ same_payload v v'.
+Proof.
+  induction ops as [|op r IH]; intros vs n Hok (op0 & HIn & Hf); [destruct HIn|].
+  inversion Hok as [|x l Hop Hr]; subst.
+  unfold expected. cbn [flat_map]. fold (expected r vs).
+  assert (Rec : (exists op1, In op1 r /\ push_field op1 = Some n) ->
+                exists v v', lookup n vs = Some v /\ lookup n (expected r vs) = Some v' /\ same_payload v v')
+    by (intro E; apply IH; assumption).
+  assert (Tail : op <> op0 -> exists op1, In op1 r /\ push_field op1 = Some n).
+  { intro Hne. destruct HIn as [E|HIn]; [congruence|]. exists op0. auto. }
+  destruct op as [o|m|m|m|m sub|m]; cbn [slot_ok expect1] in *; try contradiction.
+  - cbn [app]. apply Rec. apply Tail. intro E. subst op0. discriminate.
+  - destruct Hop as (d & Hl & _). rewrite Hl. cbn [app lookup].
+    destruct (field_eqb m n) eqn:E.
+    + apply field_eqb_eq in E. subst m. exists (VBytes d), (VBytes d). repeat split; auto.
+    + apply Rec. apply Tail. intro K. subst op0. inversion Hf. subst. rewrite (proj2 (field_eqb_eq n n) eq_refl) in E. discriminate.
+  - destruct Hop as (v & Hl & _). rewrite Hl. cbn [app lookup].
+    destruct (field_eqb m n) eqn:E.
+    + apply field_eqb_eq in E. subst m. exists (VInt v), (VInt v). repeat split; auto.
+    + apply Rec. apply Tail. intro K. subst op0. inversion Hf. subst. rewrite (proj2 (field_eqb_eq n n) eq_refl) in E. discriminate.
+  - destruct Hop as (s0 & src & Hl & _). rewrite Hl. cbn [app lookup].
+    destruct (field_eqb m n) eqn:E.
+    + apply field_eqb_eq in E. subst m. exists (VSub s0 src), (VSub sub src). repeat split; auto.
+    + apply Rec. apply Tail. intro K. subst op0. inversion Hf. subst. rewrite (proj2 (field_eqb_eq n n) eq_refl) in E. discriminate.
+Qed.
+
+(* generating again from the parsed values gives the same script *)
+Lemma generate_expected_gen : forall ops all vs, Forall (slot_ok vs) all -> (forall op, In op ops -> In op all) ->
+  generate ops (expected all vs) = generate ops vs.
+Proof.
+  induction ops as [|op r IH]; intros all vs Hok Hsub; [reflexivity|].
+  cbn [generate]. rewrite (IH all vs Hok) by (intros o Ho; apply Hsub; right; exact Ho).
+  assert (HIn : In op all) by (apply Hsub; left; reflexivity).
+  pose proof (proj1 (Forall_forall _ _) Hok op HIn) as Hop.
+  destruct op as [o|m|m|m|m sub|m]; cbn [slot_ok] in Hop; try contradiction; try reflexivity.
+  - destruct (lookup_expected all vs m Hok) as (v & v' & L1 & L2 & S); [exists (PushSingle m); auto|].
+    destruct Hop as (d & Hl & _). rewrite Hl in L1. inversion L1; subst v. rewrite L2, Hl.
+    destruct v'; cbn [same_payload] in S; try contradiction. subst. reflexivity.
+  - destruct (lookup_expected all vs m Hok) as (v & v' & L1 & L2 & S); [exists (PushInteger m); auto|].
+    destruct Hop as (d & Hl & _). rewrite Hl in L1. inversion L1; subst v. rewrite L2, Hl.
+    destruct v'; cbn [same_payload] in S; try contradiction. subst. reflexivity.
+  - destruct (lookup_expected all vs m Hok) as (v & v' & L1 & L2 & S); [exists (PushSub m sub); auto|].
+    destruct Hop as (s0 & src & Hl & _). rewrite Hl in L1. inversion L1; subst v. rewrite L2, Hl.
+    destruct v'; cbn [same_payload] in S; try contradiction. subst. reflexivity.
+Qed.
+
+Theorem parse_then_generate_output : forall name ops vs s vs', In (name, ops) output_templates ->
+  values_fit ops vs -> generate ops vs = Some s -> parse_output s = SMatch name vs' ->
+  generate ops vs' = Some s.
+Proof.
+  intros name ops vs s vs' HIn Hf G P.
+  assert (Hok : Forall (slot_ok vs) ops).
+  { apply values_fit_slot_ok; [|exact Hf]. apply (table_lits_plain name). right. apply in_or_app. left. exact HIn. }
+  destruct (generate_parse_output name ops vs HIn Hok) as (s2 & G2 & P2).
+  rewrite G in G2. inversion G2; subst s2. rewrite P in P2. inversion P2; subst vs'.
+  rewrite generate_expected_gen with (all := ops); [exact G | exact Hok | auto].
+Qed.
+
+Theorem parse_then_generate_input : forall name ops vs s vs', In (name, ops) input_simple_templates ->
+  values_fit ops vs -> generate ops vs = Some s -> parse_input s = SMatch name vs' ->
+  generate ops vs' = Some s.
+Proof.
+  intros name ops vs s vs' HIn Hf G P.
+  assert (Hok : Forall (slot_ok vs) ops).
+  { apply values_fit_slot_ok; [|exact Hf]. apply (table_lits_plain name). right. apply in_or_app. right. exact HIn. }
+  destruct (generate_parse_input name ops vs HIn Hok) as (s2 & G2 & P2).
+  rewrite G in G2. inversion G2; subst s2. rewrite P in P2. inversion P2; subst vs'.
+  rewrite generate_expected_gen with (all := ops); [exact G | exact Hok | auto].
 Qed.
